@@ -358,7 +358,17 @@ func lenGuardIdiom(call *ssa.Call) bool {
 		return false
 	}
 	bo, ok := iff.Cond.(*ssa.BinOp)
-	if !ok || (bo.Op != token.LEQ && bo.Op != token.LSS && bo.Op != token.EQL) {
+	if !ok || (bo.Op != token.LEQ && bo.Op != token.EQL) {
+		return false
+	}
+	// the length is compared with the step index of an enclosing loop (a loop-carried phi), not with a
+	// loop-invariant bound such as the batch size: `len(batch) < numSteps` stays true for every series
+	// of a shard and appends a vector per series
+	ph, isPhi := bo.Y.(*ssa.Phi)
+	if !isPhi {
+		return false
+	}
+	if body := core.LoopBodies(b.Parent())[ph.Block()]; body == nil || !body[b] {
 		return false
 	}
 	lc, ok := bo.X.(*ssa.Call)
